@@ -401,7 +401,8 @@ func runClientLife(ws []string) string {
 		if err := x.c.Wake(func(gnet.Conn, error) error { atomic.AddInt32(&wcb, 1); return nil }); err != nil {
 			util.Fail(fmt.Sprintf("client: Wake refused: %v", err))
 		}
-		time.Sleep(60 * time.Millisecond)
+		settle(3*time.Second, func() bool { s.mu.Lock(); defer s.mu.Unlock(); return h.traffic[x.k] > before }) // robust under load
+		time.Sleep(40 * time.Millisecond)                                                                      // a second call would show up now
 		s.mu.Lock()
 		after := h.traffic[x.k]
 		s.mu.Unlock()
